@@ -264,27 +264,40 @@ def run(ck, facts, tier):
         try:
             got = cel.Ev(facts, hooks=hk).apply_fn(fn, [NAME], 0)
             look = Sym("lookup", vkey(NAME))
-            leaves = {}
             import paths
+            okm, found, nfound = False, [], 0
+            tabs = hol if kind == "holidays" else wkm
             for c, v in paths.flatten(got):
                 dc = dict(c)
-                some = dc.get(("arm", ("Some", "_"), vkey(look)))
-                leaves["found" if some else "missing"] = v
-            val = Sym("payload", vkey(look), 0)
-            okm = isinstance(leaves.get("missing"), Sym) and leaves["missing"].tag[:2] == ("ctor", "Err")
+                pos = [g for g, b in c if b and isinstance(g, tuple) and g[0] == "arm"]
+                if dc.get(("arm", ("Some", "_"), vkey(look))):
+                    found.append((Sym("payload", vkey(look), 0), v))          # table form: whatever the look-up found
+                elif len(pos) == 1 and pos[0][2] == vkey(NAME) and isinstance(pos[0][1], str) and pos[0][1] in tabs:
+                    lits = const_lits(facts, tabs[pos[0][1]])                 # match form: the arm's own constant
+                    if lits is None:
+                        raise Unsupported("constant %s is not a literal table" % tabs[pos[0][1]])
+                    found.append((Tup([Poly.const(int(x)) if kind == "mask" else Sym("lit", x) for x in lits]), v))
+                elif not pos:
+                    okm = isinstance(v, Sym) and v.tag[:2] == ("ctor", "Err")
+                    nfound += 1
+                else:
+                    found.append((None, v))
+            okm = okm and nfound == 1 and bool(found)
+            f = found[0][1] if found else None
             if kind == "holidays":
-                f = leaves.get("found")
-                ok = isinstance(f, Sym) and f.tag[:2] == ("ctor", "Ok") and isinstance(f.tag[2], Coll) and vkey(f.tag[2].seq.src) == vkey(val)
-                if ok:
-                    el = f.tag[2].seq.fn(Poly.atom("i0"))
-                    lit = Sym("at", vkey(val), Poly.atom("i0").key())
-                    want = Sym("m", "unwrap", vkey(Sym("call", "chrono::NaiveDateTime::parse_from_str", (vkey(lit), vkey(Sym("lit", FMT))))), ())
-                    ok = vkey(el) == vkey(want)
+                ok = True
+                for val, f in found:
+                    ok1 = val is not None and isinstance(f, Sym) and f.tag[:2] == ("ctor", "Ok") and isinstance(f.tag[2], Coll) and vkey(f.tag[2].seq.src) == vkey(val)
+                    if ok1:
+                        el = f.tag[2].seq.fn(Poly.atom("i0"))
+                        lit = Sym("at", vkey(val), Poly.atom("i0").key())
+                        want = Sym("m", "unwrap", vkey(Sym("call", "chrono::NaiveDateTime::parse_from_str", (vkey(lit), vkey(Sym("lit", FMT))))), ())
+                        ok1 = vkey(el) == vkey(want)
+                    ok = ok and ok1
                 ck.check(r5, "get_holidays_by_name", ok and okm, "get_holidays_by_name is not: unknown name -> Err; otherwise collect(parse(literal) for every literal of the table)",
                          where, detail=cel.vfmt(f)[:400] if f is not None else None, sample="value.iter().map(|x| parse_from_str(x, FMT).unwrap()).collect()")
             else:
-                f = leaves.get("found")
-                ok = isinstance(f, Sym) and f.tag[:2] == ("ctor", "Ok") and vkey(f.tag[2]) == vkey(val)
+                ok = all(val is not None and isinstance(f, Sym) and f.tag[:2] == ("ctor", "Ok") and vkey(f.tag[2]) == vkey(val) for val, f in found)
                 ck.check(r5, "get_weekmask_by_name", ok and okm, "get_weekmask_by_name is not: unknown name -> Err; otherwise the table's mask unchanged", where,
                          detail=cel.vfmt(f)[:300] if f is not None else None, sample="value.to_vec()")
         except Unsupported as e:
